@@ -268,9 +268,12 @@ def run(tier):
             acts, accounts = gen_export(rng)
             args = {}
             if len(accounts) > 1:
-                args["account"] = rng.choice([".", accounts[0][0], re.escape(accounts[0][1])])
-            elif rng.random() < 0.2:
-                args["account"] = accounts[0][0][:4]
+                # documented as a regular expression over '{account type} {account number}'
+                args["account"] = rng.choice([".", accounts[0][0], re.escape(accounts[0][1]), "^" + re.escape(accounts[0][1]),
+                                              "^%s %s$" % (re.escape(accounts[0][1]), accounts[0][0]), accounts[0][0] + "$"])
+            elif rng.random() < 0.3:
+                args["account"] = rng.choice([accounts[0][0][:4], "^" + re.escape(accounts[0][1].split(" ")[0]),
+                                              "^%s %s$" % (re.escape(accounts[0][1]), accounts[0][0])])
             if rng.random() < 0.2:
                 args["security"] = rng.choice(["FOO", "^VTI$", r"\.TO$", "USD.FX", "FX|BAR"])
             if rng.random() < 0.2:
